@@ -101,7 +101,8 @@ impl TryFrom<&Function> for GrokFilter {
                 .args
                 .as_ref()
                 .and_then(|args| {
-                    if let FunctionArgument::Arg(Value::Bytes(null_value)) = &args[0] {
+                    // `nullIf()` without arguments is an invalid filter, not an index panic
+                    if let Some(FunctionArgument::Arg(Value::Bytes(null_value))) = args.first() {
                         Some(GrokFilter::NullIf(
                             String::from_utf8_lossy(null_value).to_string(),
                         ))
